@@ -19,6 +19,7 @@ from typing import Dict, List, Optional, Set, Tuple
 from sa.cfg import CFG
 from sa.model import AnalysisError, Function, Repo, calls_in, const_str, dotted, norm, own_nodes, parent
 from sa.paths import Provenance
+from sa.match import match
 from sa.report import Report
 from sa.resolve import CallGraph
 
@@ -160,8 +161,11 @@ def diff_coverage(repo: Repo, rep, rule: str, gen: Function, diff_body: List[ast
 def run(repo: Repo, rep: Report, tier: str) -> None:
     gen = repo.func(GEN)
     sw, atoms, ex_atoms = find_mode_switch(gen)  # type: ignore[misc]
-    out_exists = [a for a in ex_atoms if a.startswith("out_dir")]
-    rep.require(bool(out_exists), "R10.3: the mode switch does not test out_dir.exists()")
+    # the output-package variable: the one whose existence the mode switch tests (when several: the one that is later removed)
+    rm_targets = {_root_name(c.args[0]) for c in calls_in(gen.node) if dotted(c.func) == "shutil.rmtree" and c.args}
+    out_exists = [a for a in ex_atoms if a.split(".")[0] in rm_targets] or (ex_atoms if len(ex_atoms) == 1 else [])
+    rep.require(bool(out_exists), "R10.3: the mode switch does not test <output package dir>.exists()")
+    OUT = out_exists[0].split(".")[0] if out_exists else "out_dir"
     # truth table: which branch runs for each valuation
     diff_body: Optional[List[ast.stmt]] = None
     bad_vals = []
@@ -366,11 +370,11 @@ def run(repo: Repo, rep: Report, tier: str) -> None:
             continue
         if kind == "shutil.rmtree":
             in_direct = _inside(c, direct_body)
-            tgt_ok = norm(pexpr) in ("str(out_dir)", "out_dir")
+            tgt_ok = _root_name(pexpr) == OUT
             if in_direct and tgt_ok:
                 rep.ok("R10.3", sub, f"target is exactly out_dir, only in the direct-generation branch ({allowed[(fn.fq, kind)]})", fn.loc(c))
             else:
-                rep.violation("R10.3", sub, f"{fn.fq}|rmtree|{norm(pexpr)}|direct={in_direct}",
+                rep.violation("R10.3", sub, f"{fn.fq}|rmtree|target-is-output-dir={tgt_ok}|direct={in_direct}",
                               f"rmtree target `{norm(pexpr)}` / position (direct branch={in_direct}) differs from `rmtree(out_dir)` in the direct-generation branch", fn.loc(c))
         else:
             # rename: source must be derived from the destination (same directory)
@@ -389,15 +393,16 @@ def run(repo: Repo, rep: Report, tier: str) -> None:
             continue
         n_loops += 1
         t = w.test
-        stops = isinstance(t, ast.Compare) and isinstance(t.ops[0], ast.NotEq) and norm(t.comparators[0]) == "project_root"
-        var = norm(t.left) if isinstance(t, ast.Compare) else "?"
+        m = match("VAR_c != project_root", t)
+        stops = m is not None
+        var = m["VAR_c"] if m else "?"
         steps = [n for n in own_nodes(w) if isinstance(n, ast.Assign) and norm(n.targets[0]) == var and norm(n.value) == f"{var}.parent"]
         only_init = all("__init__.py" in norm(_def_of(gen, c.func.value)) for c in writes)  # type: ignore[union-attr]
         sub = f"{gen.module.relpath}:generate ancestor __init__ loop L{w.lineno}"
         if stops and steps and only_init:
             rep.ok("R10.3", sub, f"walks `{var}` upward by .parent, stops at project_root, writes only missing __init__.py", gen.loc(w))
         else:
-            rep.violation("R10.3", sub, f"{gen.fq}|init-loop|{norm(t)}",
+            rep.violation("R10.3", sub, f"{gen.fq}|init-loop|stops={stops}",
                           f"ancestor loop does not stop at project_root / writes something else (stops={stops}, steps={bool(steps)}, only_init={only_init})", gen.loc(w))
     rep.require(n_loops >= 2, f"R10.3: {n_loops} ancestor __init__ loops found (floor 2)")
 
